@@ -11,11 +11,12 @@ CHECKS="${*:-$ID}"
 D="$WT/seed_demo"
 [ -f "$D/patch.diff" ] || { echo "no patch.diff in $D"; exit 3; }
 RUN="$D/demo.sh"; [ -f "$RUN" ] || RUN="$D/run.sh"
+SH=sh; head -1 "$RUN" | grep -q bash && SH=bash
 PHASE="${SEED_PHASE:-AB}"
 case "$PHASE" in *A*)
 echo "== [$ID] demo WITH change"
 ( cd "$WT" && git diff --quiet && git apply "$D/patch.diff" ) 2>/dev/null
-( cd "$WT" && timeout 1800 sh "$RUN" >"$D/with.log" 2>&1 ); W=$?
+( cd "$WT" && timeout 1800 $SH "$RUN" >"$D/with.log" 2>&1 ); W=$?
 echo "   exit=$W"
 echo "== [$ID] existing tests WITH change"
 # (own TMPDIR: the integration tests create /tmp/ripgrep-tests/<name>/<counter>, which collides between parallel runs)
@@ -26,7 +27,7 @@ grep -E "^test result" "$D/tests.log" | awk '{p+=$4; f+=$6} END{print "   passed
 echo "   cargo test exit=$T"
 echo "== [$ID] demo WITHOUT change"
 ( cd "$WT" && git diff -- . ':!seed_demo' > "$D/applied.diff" && git checkout -- . )
-( cd "$WT" && timeout 1800 sh "$RUN" >"$D/without.log" 2>&1 ); O=$?
+( cd "$WT" && timeout 1800 $SH "$RUN" >"$D/without.log" 2>&1 ); O=$?
 echo "   exit=$O"
 ( cd "$WT" && git apply "$D/patch.diff" )
 echo "PHASEA $ID demo_with=$W demo_without=$O tests_exit=$T" | tee "$D/phaseA.txt"
